@@ -702,6 +702,35 @@ pub fn main(args: &[String], kind: &str) -> i32 {
 			}
 			case.steps = out;
 		}
+		// (C16) a sixth of the histories start with the recycled-log pattern: a log file is cleaned and reused while
+		// an older record still waits in a younger file, so that the clean-up queue holds file ids out of age order;
+		// the failure then sets in inside the clean step that truncates both
+		let mut recycle_clean: Option<usize> = None;
+		if kind == "c16" && rng.chance(1, 6) {
+			let commits: Vec<Step> = case.steps.iter().filter(|s| matches!(s, Step::Commit(_))).cloned().collect();
+			if commits.len() >= 3 {
+				let mut pre = Vec::new();
+				let logged = |pre: &mut Vec<Step>, c: &Step| {
+					pre.push(c.clone());
+					for _ in 0..6 {
+						pre.push(Step::Process);
+					}
+					pre.push(Step::Flush);
+				};
+				logged(&mut pre, &commits[0]);
+				pre.push(Step::EnactAll);
+				logged(&mut pre, &commits[1]);
+				pre.push(Step::Clean);
+				logged(&mut pre, &commits[2]);
+				pre.push(Step::EnactAll);
+				pre.push(Step::EnactAll);
+				recycle_clean = Some(pre.len());
+				pre.push(Step::Clean);
+				pre.extend(case.steps.drain(..));
+				case.steps = pre;
+				*dist.entry("histories-with-recycled-log-prelude".into()).or_insert(0) += 1;
+			}
+		}
 		hist::canonicalise(&mut case);
 		crate::util::watch_begin(&out, &hist::case_tokens(&case));
 		let dir = root.join("db");
@@ -754,8 +783,17 @@ pub fn main(args: &[String], kind: &str) -> i32 {
 			} as usize;
 			// half of the time at an enact step (if there is one): the stage with the most file operations
 			let enacts: Vec<usize> = stage_steps.iter().cloned().filter(|i| matches!(case.steps[*i], Step::EnactAll | Step::EnactOne)).collect();
-			let at = if !enacts.is_empty() && rng.chance(1, 2) { *rng.pick(&enacts) } else { *rng.pick(&stage_steps) };
-			Some((at, b))
+			// a fifth of the time inside a clean step of the later half (several enacted logs are truncated one after
+			// the other there: a failure between two of them must leave the older ones of no consequence)
+			let cleans: Vec<usize> = stage_steps.iter().cloned().filter(|i| matches!(case.steps[*i], Step::Clean) && *i * 2 >= case.steps.len()).collect();
+			if let Some(rc) = recycle_clean {
+				Some((rc, rng.range(1, 4) as usize))
+			} else if !cleans.is_empty() && rng.chance(1, 5) {
+				Some((*rng.pick(&cleans), rng.range(1, 6) as usize))
+			} else {
+				let at = if !enacts.is_empty() && rng.chance(1, 2) { *rng.pick(&enacts) } else { *rng.pick(&stage_steps) };
+				Some((at, b))
+			}
 		} else {
 			None
 		};
